@@ -360,6 +360,49 @@ func storesToGlobal(p *Prog, g *ssa.Global) []string {
 	return out
 }
 
+// sharedUsesOfGlobal lists the run-time (non-init) uses of package variable g that
+// make it state shared between runs beyond plain assignment: its address (or
+// the address of a part of it) handed to a call or method (sync.Map.Store,
+// sync.Pool.Put, append through a pointer, ...), map updates, sends.
+func sharedUsesOfGlobal(p *Prog, g *ssa.Global) []string {
+	var out []string
+	for _, fn := range p.AllFuncs() {
+		if fn.Name() == "init" || strings.HasPrefix(fn.Name(), "init#") {
+			continue
+		}
+		for _, b := range fn.Blocks {
+			for _, in := range b.Instrs {
+				switch x := in.(type) {
+				case *ssa.MapUpdate:
+					if rootGlobal(x.Map) == g {
+						out = append(out, p.Pos(x.Pos()))
+					}
+				case *ssa.Send:
+					if rootGlobal(x.Chan) == g {
+						out = append(out, p.Pos(x.Pos()))
+					}
+				case ssa.CallInstruction:
+					cc := x.Common()
+					args := cc.Args
+					if cc.IsInvoke() {
+						args = append([]ssa.Value{cc.Value}, args...)
+					}
+					for _, a := range args {
+						if _, isPtr := a.Type().Underlying().(*types.Pointer); !isPtr {
+							continue
+						}
+						if rootGlobal(a) == g {
+							out = append(out, p.Pos(in.Pos()))
+						}
+					}
+				}
+			}
+		}
+	}
+	sort.Strings(out)
+	return out
+}
+
 func rootGlobal(v ssa.Value) *ssa.Global {
 	for i := 0; i < 8; i++ {
 		switch x := v.(type) {
